@@ -26,6 +26,7 @@ def checkInv (k : Nat) (s : State) : List String :=
   chk "l_wrun_t" (all fun c => match s.pc c with | .uRunW n => s.excl == some n && s.pc n == .wgranted | _ => true) ++
   chk "l_wgranted" (all fun c => s.pc c != .wgranted || s.wrun != none) ++
   chk "wrun_w" (s.wrun == none || (all fun c => !(s.pc c).isExcl || s.pc c == .wgranted)) ++
+  chk "wrun_excl" (s.wrun == none || s.excl != none) ++
   chk "l_pend" (all fun c => (s.pc c).isPassUnl == (s.pendBy == some c)) ++
   chk "l_ew" (match s.excl with | some c => s.ew == b2n (s.pc c).isCntW | none => s.ew == 0) ++
   chk "l_enq" (match s.spin with | .held c => s.enq == b2n (s.pc c == .wUnl .enq) | _ => s.enq == 0) ++
